@@ -7,6 +7,7 @@ import os
 
 import pyboolector
 
+DOMAINS = {}        # harness field index -> inferred domain [[lo, hi], ...] of the last call
 LOG = []            # events of the current call: ["new"], ["assume", ast], ["assert", ast], ["sat", bool]
 FIELD_ID = {}       # id(field model) -> harness field index
 
@@ -141,6 +142,16 @@ def install():
                 r.ast = ["fconst", fid, int(self.val.v), self.width]
         return r
     FieldScalarModel.build = build
+    orig_rand = rz.Randomizer.randomize
+
+    def randomize(self, ri, bound_m):
+        DOMAINS.clear()
+        for f, b in bound_m.items():
+            fid = FIELD_ID.get(id(f), -1)
+            if fid >= 0:
+                DOMAINS[fid] = [[int(r[0]), int(r[1])] for r in b.domain.range_l]
+        return orig_rand(self, ri, bound_m)
+    rz.Randomizer.randomize = randomize
     rz._pv_installed = True
 
 
